@@ -66,6 +66,20 @@ CopyOutcomes(e) ==
 
 NCopyOutcomes(e) ==
   LET a == e.pre  d == e.d  s == e.s  dmax == e.dmax  slen == e.slen
+      lim  == Min(slen, dmax)
+      len  == ScanLen(a, s, lim)                  \* characters copied = min(strlen, slen)
+      fits == len < dmax
+      rn   == IF fits THEN (IF len < slen THEN len + 1 ELSE len) ELSE dmax   \* elements read
+      wn   == IF fits THEN len + 1 ELSE dmax                                 \* elements written
+      ok   == {OkOut(CopyOkMem(e, 0, len, s))}
+      \* identical pointers are not documented either way for the n-variants: admitted are the
+      \* strncpy result, the unchanged string when it is terminated inside dmax, or a report
+      full == ScanLen(a, s, dmax)
+      keep == IF full < dmax
+              THEN {Stp(e, OkOut(Tmpl(a, [i \in Rng(d, dmax) |-> IF i <= d + full THEN Same({"C06"}) ELSE IF e.slack = 1 THEN OZ({"C08"}) ELSE AnyC])), d + full)}
+              ELSE {}
+      sameOuts == {Stp(e, o, d + len) : o \in (IF fits THEN ok ELSE {}) \cup Errs({ESOVRLP}, ClearedMem(e, TRUE))
+                                            \cup (IF fits /\ full < dmax THEN {} ELSE Errs({ESNOSPC}, ClearedMem(e, TRUE)))} \cup keep
   IN IF e.fn \in StpFns /\ e.flags = 1
        THEN {WithRet(Out("err", {-7777}, {<<ESNULLP>>}, Untouched(a)), {NULLP})}
      ELSE IF DestViol(e) # {} THEN {Stp(e, o, 0) : o \in Errs(DestViol(e), DestViolMem(e))}
@@ -76,17 +90,9 @@ NCopyOutcomes(e) ==
         \* characters", then appends NUL); a null src with slen = 0 may also be reported
         {Stp(e, OkOut(Tmpl(a, [i \in Rng(d, dmax) |-> IF i = d THEN Ex(0, {"C03", "C06"}) ELSE AnyC])), d)}
           \cup (IF s = NULLP THEN {Stp(e, o, 0) : o \in Errs({ESNULLP}, ClearedMem(e, TRUE))} ELSE {})
-     ELSE
-       LET lim  == Min(slen, dmax)
-           len  == ScanLen(a, s, lim)                  \* characters copied = min(strlen, slen)
-           fits == len < dmax
-           rn   == IF fits THEN (IF len < slen THEN len + 1 ELSE len) ELSE dmax   \* elements read
-           wn   == IF fits THEN len + 1 ELSE dmax                                 \* elements written
-           ok   == {OkOut(CopyOkMem(e, 0, len, s))}
-       IN IF d = s
-          THEN \* identical pointers are not documented either way for the n-variants
-               {Stp(e, o, d + len) : o \in (IF fits THEN ok ELSE {}) \cup Errs({ESOVRLP}, ClearedMem(e, TRUE)) \cup (IF fits THEN {} ELSE Errs({ESNOSPC}, ClearedMem(e, TRUE)))}
-          ELSE {Stp(e, o, d + len) : o \in Classify(ok, fits, Rng(d, wn), Rng(s, rn), Rng(d, dmax), e, {})}
+          \cup (IF s = d THEN sameOuts ELSE {})
+     ELSE IF d = s THEN sameOuts
+     ELSE {Stp(e, o, d + len) : o \in Classify(ok, fits, Rng(d, wn), Rng(s, rn), Rng(d, dmax), e, {})}
 
 CatOutcomes(e) ==
   LET a == e.pre  d == e.d  s == e.s  dmax == e.dmax
